@@ -50,6 +50,15 @@ for t in ('DT_YMD', 'DT_DAISY'):
 for t in ('DT_YMD', 'DT_YD', 'DT_YWD', 'DT_DAISY', 'DT_YMCW'):
     G('dtc.dt_dtcmp.' + t[3:], 'dt-core', 'dt_dtcmp', ['C08', 'C11'], ins=DT_IN + DT2_IN, fix={'in_typ': t, 'in_typ2': t}, setup=DT_SET + DT2_SET,
       call='dt_dtcmp(d, d2)', ret='int', replace=['__ymcw_cmp'], solvers=['cadical'], timeout=900, sweep=SW)
+DT1_IN = [(U, 'in_typ1'), ('uint32_t', 'in_u1'), (U, 'in_h1'), (U, 'in_m1'), (U, 'in_s1')]
+DT1_SET = (' struct dt_dt_s d1 = {DT_UNK}; d1.d.typ = (dt_dtyp_t)in_typ1; d1.d.u = in_u1; d1.sandwich = 1; d1.t.typ = DT_HMS; '
+           'd1.t.hms.h = in_h1; d1.t.hms.m = in_m1; d1.t.hms.s = in_s1;')
+for t in ('DT_YMD', 'DT_YD', 'DT_YWD', 'DT_DAISY', 'DT_YMCW'):
+    G('dtc.dt_dt_in_range_p.' + t[3:], 'dt-core', 'dt_dt_in_range_p', ['C08'], ins=DT_IN + DT1_IN + DT2_IN, fix={'in_typ': t, 'in_typ1': t, 'in_typ2': t}, setup=DT_SET + DT1_SET + DT2_SET,
+      call='dt_dt_in_range_p(d, d1, d2)', ret='int', replace=['dt_dtcmp'], solvers=['cadical'], timeout=600 if t != 'DT_YMCW' else 1800,
+      tier='quick' if t != 'DT_YMCW' else 'thorough', optional=(t == 'DT_YMCW'),   # ymcw: no answer within 600 s (three copies of the (year, yday) key of a ymcw value)
+      sweep=dict(SW, in_typ1='RND % 12', in_u1='134775 + RND % 40000', in_h1='RND % 25', in_m1='RND % 61', in_s1='RND % 61'),
+      needs={'dt_dtcmp': r'dtc\.dt_dtcmp\.%s$' % t[3:]})
 for nm, dt in (('H', 'DT_DURH'), ('M', 'DT_DURM'), ('S', 'DT_DURS')):
     G('dtc.dt_dtadd.tonly.' + nm, 'dt-core', 'dt_dtadd', ['C11', 'C15'], ins=[(U, 'in_h'), (U, 'in_m'), (U, 'in_s'), (U, 'in_du'), (U, 'in_dt'), ('long long', 'in_dv')],
       fix={'in_dt': dt},
